@@ -339,57 +339,4 @@ def serialize (d : Dom) (x : Id) : Option Tree := serN (d.next + 1) d x
 /-- the serialised children of `x` (what `innerHTML` shows) -/
 def serializeKids (d : Dom) (x : Id) : Option (List Tree) := serListN (d.next + 1) d (d.kidsOf x)
 
-/-! ## basic facts about the node table (used by every proof about views) -/
-
-theorem getL_modL (f : NodeRec → NodeRec) (l : List (Id × NodeRec)) (x y : Id) :
-    getL (modL f l x) y = if y = x then (getL l x).map f else getL l y := by
-  induction l with
-  | nil => simp [modL, getL]
-  | cons h t ih =>
-    obtain ⟨i, r⟩ := h
-    by_cases hix : i = x
-    · subst hix
-      by_cases hy : y = i
-      · subst hy; simp [modL, getL]
-      · have : ¬ i = y := fun h => hy h.symm
-        simp [modL, getL, hy, this]
-    · by_cases hy : y = x
-      · subst hy; simp [modL, getL, hix, ih]
-      · by_cases hiy : i = y
-        · simp [modL, getL, hix, hiy, hy]
-        · simp [modL, getL, hix, hiy, hy, ih]
-
-theorem Dom.get?_modify (d : Dom) (x y : Id) (f : NodeRec → NodeRec) :
-    (d.modify x f).get? y = if y = x then (d.get? x).map f else d.get? y := by
-  simp [Dom.modify, Dom.get?, getL_modL]
-
-@[simp] theorem Dom.next_modify (d : Dom) (x : Id) (f : NodeRec → NodeRec) :
-    (d.modify x f).next = d.next := rfl
-
-@[simp] theorem Dom.next_err (d : Dom) (m : String) : (d.err m).next = d.next := rfl
-
-@[simp] theorem Dom.get?_err (d : Dom) (m : String) (y : Id) : (d.err m).get? y = d.get? y := rfl
-
-theorem Dom.get?_create (d : Dom) (k : Kind) (s : String) (y : Id) :
-    (d.create k s).1.get? y =
-      if y = d.next then some { kind := k, data := s } else d.get? y := by
-  by_cases h : y = d.next
-  · subst h; simp [Dom.create, Dom.get?, getL]
-  · have : ¬ d.next = y := fun e => h e.symm
-    simp [Dom.create, Dom.get?, getL, h, this]
-
-@[simp] theorem Dom.create_snd (d : Dom) (k : Kind) (s : String) : (d.create k s).2 = d.next := rfl
-
-@[simp] theorem Dom.next_create (d : Dom) (k : Kind) (s : String) :
-    (d.create k s).1.next = d.next + 1 := rfl
-
-theorem insBefore_split (l1 l2 : List Id) (c a : Id) (h : a ∉ l1) :
-    insBefore (l1 ++ a :: l2) c a = l1 ++ c :: a :: l2 := by
-  induction l1 with
-  | nil => simp [insBefore]
-  | cons k ks ih =>
-    have hk : ¬ k = a := fun e => h (by simp [e])
-    have hks : a ∉ ks := fun m => h (by simp [m])
-    simp [insBefore, hk, ih hks]
-
 end Leptos.Dom
